@@ -956,7 +956,7 @@ def _canonical(ctx, P, info, F, par, pop, crit, t, design, nmnp, wt, decn, rows,
     """permutation equivariance: the choice, re-expressed by individual identity, must be an optimum of the
     problem posed on the canonically ordered population (ties by objective value)."""
     enc, mate = info["enc"], info["mate"]
-    key = (info["cls"], pop.n, crit.tobytes(), t, tuple(design), wt, repr(sorted(par.items())), pop.het)
+    key = (info["cls"], pop.n, crit.tobytes(), t, tuple(design), wt, repr(sorted(par.items())), pop.het, repr(nmnp))
     ent = _CANON.get(key)
     if ent is None:
         pop0 = R.Population(pop.n, crit, order=None, names=R.NAME_SETS[0][:pop.n], het=pop.het,
